@@ -34,6 +34,22 @@ class Proc:
         if self.sig: return 'signal'
         return 'ok' if self.rc == 0 else 'fail'
 
+_TCK = os.sysconf('SC_CLK_TCK')
+def _pg_cpu(pgid):
+    """CPU seconds (user+system, reaped children included) used so far by the processes of one process group"""
+    tot = 0
+    for d in os.listdir('/proc'):
+        if not d.isdigit(): continue
+        try:
+            with open('/proc/%s/stat' % d, 'rb') as fh: st = fh.read()
+        except OSError: continue
+        f = st[st.rfind(b')') + 2:].split()
+        try:
+            if int(f[2]) != pgid: continue
+            tot += int(f[11]) + int(f[12]) + int(f[13]) + int(f[14])
+        except (IndexError, ValueError): continue
+    return tot / _TCK
+
 def run(argv, cwd=None, env=None, timeout=60, stdin=None, merge=False, limit=4 << 20, mem_mb=None):
     """Run a subprocess in its own process group with a wall-clock watchdog (and an address-space cap if mem_mb)."""
     if mem_mb: argv = ['prlimit', '--as=%d' % (mem_mb << 20)] + list(argv)
@@ -47,15 +63,28 @@ def run(argv, cwd=None, env=None, timeout=60, stdin=None, merge=False, limit=4 <
                              start_new_session=True)
     except OSError as ex:
         return Proc(argv, 127, b'', str(ex).encode(), False, 0.0)
+    # The watchdog budget is CPU time of the child's process group, so that a loaded machine does not turn slow into "hang":
+    # the wall-clock deadline only triggers a look at the CPU time used; a child that was starved gets more wall time (at most
+    # 6x); a child that really sits idle (blocked, deadlocked) is stopped at the 6x cap.
     to = False
-    try:
-        out, err = p.communicate(stdin, timeout=timeout)
-    except subprocess.TimeoutExpired:
-        to = True
-        try: os.killpg(p.pid, signal.SIGKILL)
-        except OSError: pass
-        out, err = p.communicate()
-    else:
+    first = True
+    deadline = t + timeout; hard = t + 6 * timeout
+    while True:
+        try:
+            out, err = p.communicate(stdin if first else None, timeout=max(0.05, deadline - time.time()))
+            break
+        except subprocess.TimeoutExpired:
+            first = False
+            now = time.time()
+            cpu = _pg_cpu(p.pid)
+            if now >= hard or cpu >= 0.8 * timeout:
+                to = True
+                try: os.killpg(p.pid, signal.SIGKILL)
+                except OSError: pass
+                out, err = p.communicate()
+                break
+            deadline = min(hard, now + max(1.0, 0.8 * timeout - cpu))
+    if not to:
         try: os.killpg(p.pid, signal.SIGKILL)   # stragglers
         except OSError: pass
     return Proc(argv, p.returncode, (out or b'')[:limit], (err or b'')[:limit], to, time.time() - t)
